@@ -57,7 +57,12 @@ func refValue(id string) ast.Value {
 func NewGraph(sc Scope, tag string) *Graph {
 	g := &Graph{Scope: sc}
 	for i := 0; i < sc.N; i++ {
-		g.IDs = append(g.IDs, fmt.Sprintf("http://x.org/n%d", i+1))
+		if i == sc.N-1 && sc.N >= 2 {
+			// the last node is a blank node (an embedded object without @id gets such a label)
+			g.IDs = append(g.IDs, "_:b0")
+		} else {
+			g.IDs = append(g.IDs, fmt.Sprintf("http://x.org/n%d", i+1))
+		}
 	}
 	for i := 0; i < sc.N; i++ {
 		e := smt.Var(fmt.Sprintf("%s_exists_%d", tag, i), 0)
